@@ -13,7 +13,10 @@ from vlib.probe import Probe, HarnessError
 from vlib.gen import whole_programs
 from vlib.c02_worker import canon_log
 
-CONFIGS = [(hs, wq, opt) for hs in ('0', '1', '4242') for wq in ('', 'SD') for opt in (False, True)]
+CONFIGS = [(hs, wq, opt, False) for hs in ('0', '1', '4242') for wq in ('', 'SD') for opt in (False, True)]
+# ... and two workers in which the cyclic garbage collector runs before every activation (elsewhere it never runs
+# during a simulation): when unreachable objects are finalised must not matter either
+CONFIGS += [('0', '', False, True), ('1', 'SD', True, True)]
 _WORKERS = {}
 
 
@@ -21,9 +24,10 @@ def worker(cfg):
     key = (os.getpid(), cfg)
     w = _WORKERS.get(key)
     if w is None or w.poll() is not None:
-        hs, wq, opt = cfg
+        hs, wq, opt, gc_every = cfg
         env = dict(os.environ, PYTHONHASHSEED=hs)
         env.pop('USIM_WAITQUEUE', None)
+        env['C02_GC'] = '1' if gc_every else '0'
         if wq:
             env['USIM_WAITQUEUE'] = wq
         cmd = [sys.executable, '-B'] + (['-O'] if opt else []) + ['-m', 'vlib.c02_worker']
@@ -63,7 +67,62 @@ def ask_all(req):
 
 
 @st.composite
+def abandoned_iterator_programs(draw):
+    """An activity is interrupted / cancelled / closed while it holds a suspended library iterator in a variable (first(),
+    a queue iterator, a prepared ticker): what the iterator owns is released at once - not when the collector runs."""
+    g = draw(st.sampled_from([0.75, 1.25, 2.75]))
+    shape = draw(st.sampled_from(['first', 'first', 'queue', 'queue', 'sampler', 'sampler']))
+    how = draw(st.sampled_from(['until', 'scope', 'cancel', 'volatile']))
+    if shape == 'first':
+        acts = [{'name': 'x0', 'steps': [{'op': 'sleep', 'd': draw(st.sampled_from([0, 0.5]))}, {'op': 'return', 'v': 1}]},
+                {'name': 'x1', 'steps': [{'op': 'sleep', 'd': draw(st.sampled_from([5, 7]))}, {'op': 'return', 'v': 2}]}]
+        op = {'op': 'first', 'acts': acts, 'count': 2, 'gap': 4, 'keep': draw(st.integers(0, 3)) > 0}
+        others = []
+    elif shape == 'sampler':
+        op = {'op': 'sampler', 'i': 0, 'period': draw(st.sampled_from([0.5, 1])), 'gap': 10, 'n': 3}
+        # somebody who wants the lock that the abandoned sampler still owns
+        others = [{'name': 'us', 'steps': [{'op': 'sleep', 'd': g + 0.5}, {'op': 'lock', 'i': 0, 'body': [{'op': 'sleep', 'd': 1}]}]}]
+    else:
+        op = {'op': 'qiter', 's': 0, 'n': None, 'gap': None, 'explicit': draw(st.integers(0, 3)) > 0}
+        # a producer and a second receiver that can only be served once the first one has let go of the read side
+        others = [{'name': 'pr', 'steps': [{'op': 'sleep', 'd': g + 1}, {'op': 'qput', 's': 0, 'v': 7}, {'op': 'sleep', 'd': 4},
+                                           {'op': 'qput', 's': 0, 'v': 8}, {'op': 'qclose', 's': 0}]},
+                  {'name': 'c2', 'steps': [{'op': 'sleep', 'd': g + 0.5}, {'op': 'qget', 's': 0}, {'op': 'mark', 'v': 'served'}]}]
+    tail = [{'op': 'sleep', 'd': 1}, {'op': 'sleep', 'd': 8}]
+    if how == 'until':
+        cl = {'name': 'cl', 'steps': [{'op': 'until', 'notif': ['delay', g], 'children': [], 'body': [op]}] + tail}
+    elif how == 'scope':
+        cl = {'name': 'cl', 'steps': [{'op': 'scope', 'name': 'G', 'catch': True, 'body': [op], 'children': [
+            {'name': 'gf', 'steps': [{'op': 'sleep', 'd': g}, {'op': 'raise', 'eid': 900, 'cls': 'K'}]}]}] + tail}
+    else:
+        cl = {'name': 'cl', 'steps': [op] + tail}
+    kids = [cl] + others + [{'name': 'ot', 'steps': [{'op': 'sleep', 'd': 9}]}]
+    if how == 'cancel':
+        kids.append({'name': 'kl', 'steps': [{'op': 'sleep', 'd': g}, {'op': 'cancel', 'ref': 'cl', 'token': [3]}]})
+    if how == 'volatile':
+        cl['volatile'] = True
+        kids.append({'name': 'en', 'steps': [{'op': 'sleep', 'd': g}]})
+        blk = {'op': 'scope', 'name': 'S', 'catch': True, 'body': [], 'children': [k for k in kids if k['name'] in ('cl', 'en')]}
+        rest = [k for k in kids if k['name'] not in ('cl', 'en')]
+        outer = {'op': 'scope', 'name': 'O', 'catch': True, 'children': rest, 'body': [blk, {'op': 'sleep', 'd': 9}]}
+        roots = [{'name': 'r0', 'steps': [outer]}]
+    else:
+        roots = [{'name': 'r0', 'steps': [{'op': 'scope', 'name': 'S', 'catch': True, 'children': kids, 'body': []}]}]
+    return {'start': 0, 'objs': {'queues': 1, 'locks': 1}, 'roots': roots}
+
+
+@st.composite
 def cases(draw, tier):
+    if draw(st.integers(0, 9)) == 0:
+        return {'prog': draw(abandoned_iterator_programs()), 'junk': draw(st.integers(0, 10000))}
+    if draw(st.integers(0, 4)) == 0:
+        # the programs of the lock / stream / resource / ticker / first() checks (without injected faults): activities
+        # that are interrupted or closed while they hold iterators, locks and shares - what such an activity leaves
+        # behind must be cleaned up at a moment that the program determines, not the garbage collector
+        from checks import c09, c10, c11, c12, c14, c16
+        mod = draw(st.sampled_from([c09, c10, c10, c11, c12, c14, c16, c16]))
+        sub = draw(mod.cases('quick'))
+        return {'prog': sub['prog'], 'junk': draw(st.integers(0, 10000))}
     k = draw(st.integers(0, 7))
     if k == 0:
         # many waiters on *different* comparison objects of one tracked value, one setter;
@@ -250,7 +309,9 @@ class C02(Check):
                     kinds.add('opt')
                 if cfg[0] != '0':
                     kinds.add('hashseed')
-            if len(set(texts.values()) | {ref}) > 1 and all(c[1] == '' and not c[2] for c in bad):
+                if cfg[3]:
+                    kinds.add('gc_timing')
+            if len(set(texts.values()) | {ref}) > 1 and all(c[1] == '' and not c[2] and not c[3] for c in bad):
                 kinds.add('process')
             # first differing row, for the message
             t = texts[bad[0]] or ''
